@@ -95,7 +95,7 @@ def run(ctx):
               "give bit-identical outputs. non-trivial = L != 0 and points differ.")
   ctx.trusted = ["Coq 8.16.1 kernel + vm_compute", "translator tools/translate_query.py + idiom table coq/Base/NP.v",
                  "binary64 rounding is not modelled in the theorems", "harness passes identical numbers to both sides"]
-  ok = ctx.build_property(gen_needed=['Src_query'])
+  ok = ctx.build_property(gen_needed=['Src_query'], case_libs=('Model/CaseDefs.vo', 'Model/CaseDefsQuery.vo'))
   terms, recs = mc.exact_cases(ctx, 2500 if thorough else 300, 'C02')
   tterms, trecs = mc.tol_cases(ctx, 'C02', variants=thorough)
   if ok:
